@@ -48,19 +48,15 @@ impl VelocityControl {
 //@end
 
 //@fn vls-core/src/util/velocity.rs :: impl VelocityControl :: with_state props=C12
-    ensures
-        r.start_sec == state.0, r.buckets == state.1,                              //[C12.load.state]
-        r.limit == self.limit, r.bucket_interval == self.bucket_interval,
+//@include frag/c/vc_with_state.rs
 //@end
 
 //@fn vls-core/src/util/velocity.rs :: impl VelocityControl :: load_from_state props=C12
-    ensures
-        r.start_sec == state.0, r.buckets == state.1,                              //[C12.load.state]
-        r.limit == spec_triple(spec).0, r.bucket_interval == spec_triple(spec).1,
+//@include frag/c/vc_load_from_state.rs
 //@end
 
 //@fn vls-core/src/util/velocity.rs :: impl VelocityControl :: get_state props=C12
-    ensures r.0 == self.start_sec, r.1@ == self.buckets@,                          //[C12.save.state]
+//@include frag/c/vc_get_state.rs
 //@end
 
 //@fn vls-core/src/util/velocity.rs :: impl VelocityControl :: is_unlimited props=C12
